@@ -173,6 +173,11 @@ def run(ctx):
             else:
                 report_corr(cid, kv, "end-to-end model mergeFull (layers + locals + injection_for_match + intersect_ranges + new-table) and the real event stream disagree (corr=%s fin=%s)" % (corr, kv.get("fin")),
                             "mergeFull=HighlightIter::next")
+            stk = kv.get("stack", "-")
+            dist["F:scope-stack-judge=%s" % ("FAIL" if stk.startswith("FAIL") else stk)] += 1
+            if stk.startswith("FAIL"):
+                report_judge(cid, kv, "scope-stack", "the highlights active over Source span %s are not the ones of the layers' captures containing it "
+                             "(an End closed another capture's highlight)" % stk[5:])
             if kv.get("refsup") != "1" or kv.get("defsin") != "1":
                 report_corr(cid, kv, "a real case violates refsUp/defsIn (hypotheses of merge_full_wellformed)", "refsUp/defsIn(full)")
             if kv.get("wf") != "ok":
